@@ -22,8 +22,24 @@ def error_grammars(rng, n, strict=None, error_share=0.7):
     i = 0
     while len(out) < n:
         i += 1
-        k = i % 4
-        if k == 0:
+        k = i % 7
+        if k == 6:
+            k = 4
+        if k >= 4:
+            # item lists (inputs made of repeated fragments) and tail chains, mostly with an added error rule
+            from .gram import Rule, Grammar
+            g = gen.item_list_grammar(rng) if k == 4 else gen.tail_chain_grammar(rng, listed_p=0.8)
+            ig = getattr(g, "input_gen", None)
+            nm = "item_list" if k == 4 else "tail_chain"
+            if rng.random() < error_share:
+                a = "I" if k == 4 else rng.choice(["S", "S", rng.choice(g.nonterms())])
+                rhs = [ERR] + (["';'"] if rng.random() < 0.7 else [])
+                an, c, t = gen.random_transl(rng, rhs)
+                g = Grammar(g.terms, g.rules + [Rule(a, rhs, an, c, t)])
+                g.input_gen = ig
+                nm += "+error"
+            s = 1 if not oracle.wf(g, 1) else 0
+        elif k == 0:
             nm, g = epool[rng.randrange(len(epool))]
             s = 1 if not oracle.wf(g, 1) else 0
         elif k == 1:
@@ -160,6 +176,16 @@ def rec_inputs(rng, g, ref, n_inputs, maxlen):
     rng.shuffle(non)
     rng.shuffle(sen)
     out = non[:max(1, n_inputs - 2)] + sen[:2]
+    if getattr(g, "input_gen", None) is not None and terms:
+        # long sentences made of repeated fragments, damaged only at their end: whatever the parser remembered
+        # along the valid prefix must not move the error forward
+        seen = set(tuple(w) for w in out)
+        longs = [w for w in sen if len(w) >= 6]
+        for w in longs[:max(2, n_inputs)]:
+            for v in (w[:-1], w[:-1] + [rng.choice(terms)]):
+                if tuple(v) not in seen and not ref.sentence(v):
+                    seen.add(tuple(v))
+                    out.append(v)
     return out
 
 
@@ -547,7 +573,7 @@ PARAMS = {
                      "off x lookahead 0..2 and recovery on x lookahead 0..2 x recovery_match 1..5. Non-trivial = distinct "
                      "(grammar,input) whose first offending token is neither token 0 nor end of input."),
     "C07": dict(configs=rec_configs((1, 2, 3, 5), ones=(1, 0)), strict=None,
-                quick=(16, 30, 8, 12), thorough=(160, 50, 9, 18), floor=300,
+                quick=(16, 60, 8, 12), thorough=(160, 60, 9, 18), floor=300,
                 rule="accepted grammars with zero or more `error' rules, strict and non-strict; inputs up to 8-9 tokens "
                      "(sentences and non-sentences); recovery on, recovery_match in {1,2,3,5}, lookahead 0..2, one/all "
                      "parses. The tree must be a reference translation of the input repaired by replacing segments of "
@@ -555,7 +581,7 @@ PARAMS = {
                      "enumeration with <= min(4, callbacks+secondary states) segments). Non-trivial = distinct "
                      "(grammar,input,configuration) of non-sentences with K>0 or >=2 callbacks."),
     "C08": dict(configs=rec_configs((1, 2, 3, 4, 5)), strict=None,
-                quick=(16, 40, 10, 16), thorough=(160, 70, 13, 26), floor=300,
+                quick=(16, 80, 10, 16), thorough=(160, 70, 13, 26), floor=300,
                 rule="accepted grammars with `error' rules; non-sentences; recovery_match 1..5, lookahead 0..2; the first "
                      "callback's ignored count is compared with the minimum over all simple recoveries computed by "
                      "the reference recogniser (back to p with `error' viable, skip to q, match). Non-trivial = distinct "
